@@ -29,6 +29,9 @@ pub static NESTED_READS: std::sync::atomic::AtomicUsize = std::sync::atomic::Ato
 /// Number of items claimed from range iterators / whether a horizon cut a range short.
 pub static HORIZON_CUTS: std::sync::atomic::AtomicUsize = std::sync::atomic::AtomicUsize::new(0);
 
+/// Number of spawned workers currently running (not yet joined).
+static ACTIVE_WORKERS: std::sync::atomic::AtomicUsize = std::sync::atomic::AtomicUsize::new(0);
+
 pub fn set_range_horizon(h: usize) {
     RANGE_HORIZON.store(h, std::sync::atomic::Ordering::SeqCst);
 }
@@ -73,6 +76,12 @@ impl<T> RwLock<T> {
         {
             let mut rd = self.readers.lock().unwrap();
             if let Some(e) = rd.iter_mut().find(|e| e.0 == me) {
+                // std's RwLock may deadlock on a recursive read if a writer queues in
+                // between: only tolerated when no other worker can be running.
+                assert!(
+                    ACTIVE_WORKERS.load(std::sync::atomic::Ordering::SeqCst) == 0,
+                    "recursive read lock while other workers are running: deadlock hazard with std::sync::RwLock"
+                );
                 e.1 += 1;
                 NESTED_READS.fetch_add(1, std::sync::atomic::Ordering::SeqCst);
                 return Ok(RwLockReadGuard::Nested(e.2 as *const T, self));
@@ -215,9 +224,11 @@ where
     let ra;
     {
         let rbref = &mut rb;
+        ACTIVE_WORKERS.fetch_add(1, std::sync::atomic::Ordering::SeqCst);
         let h = unsafe { spawn_erased(Box::new(move || *rbref = Some(b()))) };
         ra = a();
         h.join().expect("worker panicked");
+        ACTIVE_WORKERS.fetch_sub(1, std::sync::atomic::Ordering::SeqCst);
     }
     (ra, rb.unwrap())
 }
@@ -251,11 +262,13 @@ fn run_indexed<F: Fn(usize) + Sync>(len: usize, f: F) {
     let mut handles = vec![];
     for _ in 1..nw {
         let w = &work;
+        ACTIVE_WORKERS.fetch_add(1, std::sync::atomic::Ordering::SeqCst);
         handles.push(unsafe { spawn_erased(Box::new(move || w())) });
     }
     work();
     for h in handles {
         h.join().expect("worker panicked");
+        ACTIVE_WORKERS.fetch_sub(1, std::sync::atomic::Ordering::SeqCst);
     }
 }
 
